@@ -513,6 +513,11 @@ class Concatenator(Group):  # pylint: disable=too-many-public-methods
 
             entity.parent.remove_property_group(entity)
             self.update_array_attribute(parent, "property_groups")
+            if self._property_group_ids:
+                gone = (as_str_if_uuid(entity.uid), as_str_if_uuid(entity.uid).encode())
+                self._property_group_ids = [
+                    uid for uid in self._property_group_ids if uid not in gone
+                ]
 
         if (
             self.concatenated_attributes is not None
